@@ -14,6 +14,8 @@ import (
 	codectypes "github.com/cosmos/cosmos-sdk/codec/types"
 	sdk "github.com/cosmos/cosmos-sdk/types"
 	banktypes "github.com/cosmos/cosmos-sdk/x/bank/types"
+	icatypes "github.com/cosmos/ibc-go/v8/modules/apps/27-interchain-accounts/types"
+	channeltypes "github.com/cosmos/ibc-go/v8/modules/core/04-channel/types"
 	ethcrypto "github.com/ethereum/go-ethereum/crypto"
 	consensustypes "github.com/palomachain/paloma/v2/x/consensus/types"
 	evmtypes "github.com/palomachain/paloma/v2/x/evm/types"
@@ -42,6 +44,7 @@ type env struct {
 	// actors that can be written into messages
 	A, B, U, G, L *actor
 	C             *actor // a CosmWasm contract deployed by the attacker (wasm extension)
+	I             *actor // an interchain account on this (host) chain, controlled from another chain (ica variant)
 	V             *actor // a second attacker that is itself a bonded validator with registered chain accounts (w.Vals[1])
 	actors        []*actor
 	byName        map[string]*actor
@@ -64,6 +67,8 @@ type env struct {
 	rootTake    sdk.Context // rootPlain + the attacker's own siblings of the victim's resources (takeover pass)
 	aPendingTx  uint64
 	aContractID uint64
+	icaParams   string // interchain-accounts host params as the world's genesis left them
+	icaEnabled  bool
 	setupLog    []string
 	stores      map[string]*storetypes.KVStoreKey
 	principals  []*principal
@@ -123,6 +128,7 @@ func newEnv() *env {
 	if e.V.EthHex != w.Vals[1].EthAddr() {
 		panic("eth key derivation differs from world.NewVal")
 	}
+	e.I = mk("I", "interchain-account", world.NewActor("ica-I").Addr, "I")
 	e.actors = []*actor{e.A, e.B, e.U, e.G, e.L}
 	e.keys = map[string]*world.Actor{"A": w.User("A"), "B": b.Actor, "U": w.User("U"), "L": w.User("L"), "M": w.User("M"), "V": w.Vals[1].Actor}
 	e.setup()
@@ -279,11 +285,38 @@ func (e *env) setup() {
 	// ... and this one holds funds (its deployer sent it some), so that it can act for itself
 	must(w.App.BankKeeper.SendCoins(ctx, e.A.Acc, e.C.Acc, sdk.NewCoins(sdk.NewInt64Coin(world.BondDenom, 1_000_000_000))))
 
+	e.setupICA(ctx)
+
 	e.rootPlain = ctx
 	g := world.Fork(ctx)
 	must(w.App.FeeGrantKeeper.GrantAllowance(g, e.B.Acc, e.A.Acc, &feegrant.BasicAllowance{}))
 	e.rootGrant = g
 	e.setupTakeover()
+}
+
+const (
+	icaOwnerPort  = icatypes.ControllerPortPrefix + "owner-on-the-controller-chain"
+	icaConnection = "connection-0"
+	icaChannel    = "channel-0"
+)
+
+// setupICA writes the state a completed interchain-accounts handshake leaves on
+// the host side (through exported setters, no handshake is run): an OPEN ORDERED
+// channel on port icahost whose version names the interchain account I, the
+// owner -> account mapping and the active channel. I is an existing funded account.
+func (e *env) setupICA(ctx sdk.Context) {
+	w := e.w
+	w.App.AccountKeeper.SetAccount(ctx, w.App.AccountKeeper.NewAccountWithAddress(ctx, e.I.Acc))
+	must(w.App.BankKeeper.SendCoins(ctx, e.A.Acc, e.I.Acc, sdk.NewCoins(sdk.NewInt64Coin(world.BondDenom, 1_000_000_000))))
+	version := string(icatypes.ModuleCdc.MustMarshalJSON(&icatypes.Metadata{Version: icatypes.Version, ControllerConnectionId: icaConnection, HostConnectionId: icaConnection,
+		Address: e.I.Acc.String(), Encoding: icatypes.EncodingProtobuf, TxType: icatypes.TxTypeSDKMultiMsg}))
+	w.App.IBCKeeper.ChannelKeeper.SetChannel(ctx, icatypes.HostPortID, icaChannel, channeltypes.Channel{State: channeltypes.OPEN, Ordering: channeltypes.ORDERED,
+		Counterparty: channeltypes.Counterparty{PortId: icaOwnerPort, ChannelId: icaChannel}, ConnectionHops: []string{icaConnection}, Version: version})
+	w.App.ICAHostKeeper.SetInterchainAccountAddress(ctx, icaConnection, icaOwnerPort, e.I.Acc.String())
+	w.App.ICAHostKeeper.SetActiveChannelID(ctx, icaConnection, icaOwnerPort, icaChannel)
+	p := w.App.ICAHostKeeper.GetParams(ctx)
+	e.icaParams = fmt.Sprintf("host_enabled=%v allow_messages=%v", p.HostEnabled, p.AllowMessages)
+	e.icaEnabled = p.HostEnabled
 }
 
 func (e *env) proof() *codectypes.Any {
